@@ -3037,7 +3037,7 @@ func c12DropShape(mask, n int) string {
 // serves a stretch as a row-range view over the column chunks of the converted row group). The
 // row of an id is a function of the id, so that the two copies of an id in the overlap are equal
 // and the merged sequence is fully determined. Target: fields deleted and permuted at any depth
-// (never `id`). Paths: MergeRowGroups(schema, sorting).Rows(); CopyRows of those rows into a
+// (never `id`), then nothing / fields added / required->optional / optional->required. Paths: MergeRowGroups(schema, sorting).Rows(); CopyRows of those rows into a
 // writer; WriteRowGroup of the merged row group. Expected: the reference shredding of the
 // projected rows in id order.
 func c12BigMergeCase(ctx *core.Ctx, r *rand.Rand, at func(path, mode string, detail any)) {
@@ -3054,8 +3054,8 @@ func c12BigMergeCase(ctx *core.Ctx, r *rand.Rand, at func(path, mode string, det
 	src.fields = append(src.fields[:pos:pos], append([]*c12Node{idf}, src.fields[pos:]...)...)
 	var tg *c12Target
 	for try := 0; ; try++ {
-		mode := "drop-permute"
-		if r.Intn(3) == 0 || try > 10 {
+		mode := []string{"drop-permute", "drop-permute", "drop-permute", "permute", "widen", "widen", "add", "add", "add", "narrow"}[r.Intn(10)]
+		if try > 10 {
 			mode = "permute"
 		}
 		tg = g.target(src, mode)
@@ -3154,6 +3154,46 @@ func c12BigMergeCase(ctx *core.Ctx, r *rand.Rand, at func(path, mode string, det
 		}
 	}
 	cs := &c12Case{src: src, tgt: tgt, srcS: srcS, tgtS: tgtS, tleaves: tleaves}
+	// targets that add columns: where conversion.Convert itself gives an added column borrowed
+	// levels on some row of this case (F19, recorded), the failures of the case belong to that
+	// family; where it converts every row as expected, every path must do so too
+	addedKey := ""
+	if tg.mode == "add" {
+		at("big-merge-convert-rows", tg.mode, det)
+		_, err := c12Guard(func() (*c12Out, error) {
+			conv, err := parquet.Convert(tgtS, srcS)
+			if err != nil {
+				return nil, err
+			}
+			for id := int64(0); id < int64(lo+nB) && addedKey == ""; id++ {
+				v := valOf(id)
+				rows := []parquet.Row{c12RowOf(c12ShredRow(src, v))}
+				if _, err := conv.Convert(rows); err != nil {
+					return nil, err
+				}
+				got, err := c12SplitRows(nil, rows, tleaves)
+				want := c12ShredRow(tgt, c12ProjectBody(src, tgt, v))
+				for ci := range want {
+					var w []gen.Triple
+					for _, x := range want[ci] {
+						w = append(w, c12Canon(nil, x, tleaves[ci]))
+					}
+					if err != nil || !reflect.DeepEqual(w, got[ci]) {
+						if added, _, _ := c12AddedShape(src, tgt, tleaves[ci].path); added || err != nil {
+							addedKey = c12AddedKey(c12Path{}, cs, ci)
+							break
+						}
+					}
+				}
+			}
+			return nil, nil
+		})
+		if err != nil {
+			ctx.Fail("L1", "path-error:convert-rows:add:"+errClass(err), "Convert fails on a target that adds columns: "+err.Error(), det)
+			return
+		}
+		ctx.Hist("big-merge-added-columns", map[bool]string{true: "row conversion right on every row", false: "row conversion borrows levels (F19)"}[addedKey == ""])
+	}
 	merge := func() (parquet.RowGroup, error) {
 		m, err := parquet.MergeRowGroups([]parquet.RowGroup{fa.RowGroups()[0], fb.RowGroups()[0]}, tgtS, parquet.SortingRowGroupConfig(sorting))
 		if err != nil {
@@ -3227,7 +3267,10 @@ func c12BigMergeCase(ctx *core.Ctx, r *rand.Rand, at func(path, mode string, det
 			if strings.HasPrefix(err.Error(), "PANIC") {
 				k = "path-panic:" + p.name + ":" + tg.mode
 			}
-			ctx.Fail("L1", k, err.Error(), det)
+			if addedKey != "" {
+				k = addedKey
+			}
+			ctx.Fail("L1", k, "path "+p.name+": "+err.Error(), det)
 			continue
 		}
 		col, idx, desc := c12FirstDiff(exp, out.cols)
@@ -3236,6 +3279,14 @@ func c12BigMergeCase(ctx *core.Ctx, r *rand.Rand, at func(path, mode string, det
 		}
 		what := fmt.Sprintf("rows expected %d got %d", len(ids), out.nrows)
 		key := "row-count-or-structure:" + p.name + ":" + tg.mode
+		if addedKey != "" {
+			m := map[string]any{"path": p.name}
+			for k, v := range det {
+				m[k] = v
+			}
+			ctx.Fail("L1", addedKey, "path "+p.name+" on rows whose added column carries borrowed levels: "+what+" "+desc, m)
+			continue
+		}
 		if err != nil {
 			what += "; " + err.Error()
 		}
